@@ -13,6 +13,7 @@ CONSTANTS
   MaxOut = 1
   CheckThenAct = TRUE
   SplitCheck = FALSE
+  TrackSnap = TRUE
 VIEW view
 CHECK_DEADLOCK FALSE
 INVARIANTS TypeOK Book
